@@ -15,13 +15,13 @@ TB_RC = [
 PROPS = {}
 
 
-def run_part(part, seed=0, tier='quick', threads=16):
+def run_part(part, seed=0, tier='quick', threads=16, prop=None, stop_on_failure=False):
     kind = part[0]
     if kind == 'verus':
         return parts.verus_part(part[1], threads=threads)
     if kind == 'kani':
         from . import kani
-        return kani.kani_part(part[1], tier=tier)
+        return kani.kani_part(part[1], tier=tier, prop=prop, stop_on_failure=stop_on_failure)
     if kind == 'static':
         from . import static
         return static.run(part[1])
@@ -32,7 +32,7 @@ def reg(pid, quick, thorough=None, **kw):
     PROPS[pid] = dict(quick=quick, thorough=thorough or quick, **kw)
 
 
-reg('C01', [('verus', 'xoshiro')],
+reg('C01', [('verus', 'xoshiro')], thorough=[('verus', 'xoshiro'), ('kani', 'api')], fallback=[('kani', 'api')],
     level='proof', trusted_base=TB_COMMON + TB_RC,
     explanation='every native-width next_* of the 15 generators carries `r == <ref>_out(old state)` and `final state == <ref>_next(old state)`; from_seed carries the LE-word postcondition',
     assumptions=['stream positions follow from the one-step contracts by induction (iter32/iter64)'])
@@ -40,7 +40,7 @@ reg('C06', [('verus', 'xoshiro')],
     level='proof', trusted_base=TB_COMMON + ['jump polynomials x^(2^k) mod minpoly(T) are recomputed on every run by tools/jumppoly.py (exact GF(2)[x] arithmetic, not machine-checked by the verifier)'],
     explanation='proved for all states: jump()/long_jump() == reference polynomial J_ref(T) applied to the old state (both loop invariants); assumed+recomputed: J_ref(x) == x^(2^k) mod minpoly(T), hence J_ref(T) == T^(2^k)',
     assumptions=['p(T) == T^(2^k) whenever p == x^(2^k) mod minpoly(T) (textbook linear algebra over GF(2), not discharged by the verifier)'])
-reg('C04', [('verus', 'xorshift')],
+reg('C04', [('verus', 'xorshift')], thorough=[('verus', 'xorshift'), ('kani', 'api')], fallback=[('kani', 'api')],
     level='proof', trusted_base=TB_COMMON + TB_RC + ['T4 Wrapping shim: local stand-in for core::num::Wrapping with verified operator impls (same operator semantics assumed; Kani cross-check)'],
     explanation='next_u32 carries `(x,y,z,w)\' == xor128_next(x,y,z,w)` and `r == new w`; from_seed carries the LE-word / 0x0BAD5EED postconditions',
     assumptions=['stream positions follow from the one-step contract by induction'])
@@ -90,13 +90,13 @@ reg('C09', [('verus', 'xoshiro'), ('verus', 'xorshift'), ('verus', 'isaac'), ('v
             ('kani', 'rc_glue'), ('kani', 'seeding'), ('kani', 'hc128_incrate'), ('kani', 'isaac_incrate'), ('kani', 'isaac64_incrate')],
     level='proof', trusted_base=TB_COMMON + TB_RC + TB_KANI,
     explanation='seed_from_u64 == from_seed(documented expansion) (Verus for the xoshiro family and ISAAC; Kani against a PCG32 twin for XorShiftRng and Hc128Rng); from_rng/try_from_rng: exactly one seed worth of bytes, same generator, source error returned unchanged (Kani with recording sources; XorShift redraw loop in Verus)')
-reg('C10', ALL_UNITS, level='proof', trusted_base=TB_COMMON + TB_RC,
+reg('C10', ALL_UNITS, thorough=ALL_UNITS + [('kani', 'hc128_incrate')], fallback=[('kani', 'hc128_incrate')], level='proof', trusted_base=TB_COMMON + TB_RC,
     explanation='clone copies every field, == holds iff all state is equal (derived and hand-written impls, incl. Hc128Rng core+index); every operation under contract determines result and final state from the old state (the state clauses), so equal states have identical futures',
     assumptions=['IsaacRng/Isaac64Rng derive Clone over rand_core BlockRng (dependency derive output); they have no PartialEq'])
 reg('C11', [('kani', 'serde_rt')], level='proof', trusted_base=TB_KANI + ['serde derive output and bincode are symbolically executed as ordinary code'],
     explanation='bincode round trip through the real derive output for an arbitrary state of each of the 16 small generators: restored == original (full-state equality, C10) and the original is untouched',
     assumptions=['IsaacRng / Isaac64Rng (token-format harness) are in the thorough tier only if they finish; see evidence'])
-reg('C17', [('kani', 'debug'), ('kani', 'hc128_incrate'), ('kani', 'isaac_incrate'), ('kani', 'isaac64_incrate')], level='proof', trusted_base=TB_KANI,
+reg('C17', [('static', 'debug_frame'), ('kani', 'debug'), ('kani', 'hc128_incrate'), ('kani', 'isaac_incrate'), ('kani', 'isaac64_incrate'), ('kani', 'jitter_incrate')], level='proof', trusted_base=TB_KANI,
     explanation='{:?} and {:#?} of an arbitrary state written into a fixed sink equal the expected literal byte for byte (formatting loops are bounded by the literal length)')
 reg('C18', ALL_UNITS + [('static', 'cfg_invariance')], level='proof', trusted_base=TB_COMMON + ['optimiser/code generator correctness (T1): no source-level method can do without it'],
     explanation='(1) no overflow/debug check can fire in any function under contract (Verus built-in obligations), so dev and release execute the same arithmetic; (2) every function has identical expanded text under {debug assertions on, off} x {serde off, on}')
